@@ -492,7 +492,9 @@ func (session *HermesSession) Run(workingDir string, args []string, logID string
 				g.AKTUELL = g.Kalender(ZEIT)
 			}
 
+			verifProbe("evatra-pre", ZEIT, 0, 0, &g, &hermesWaterVar, &nitroSharedVars)
 			Evatra(&hermesWaterVar, &g, &herPath, ZEIT)
+			verifProbe("evatra", ZEIT, 0, 0, &g, &hermesWaterVar, &nitroSharedVars)
 
 			FSCS := 0.0
 			ZSR := 1.0
@@ -582,8 +584,11 @@ func (session *HermesSession) Run(workingDir string, args []string, logID string
 			} else {
 				STEPS, WDT = 1, 1
 			}
+			verifProbe("steps", ZEIT, int(STEPS), WDT, &g, &hermesWaterVar, &nitroSharedVars)
 			for SUBD := 1; SUBD <= int(STEPS); SUBD++ {
+				verifProbe("water-pre", ZEIT, SUBD, WDT, &g, &hermesWaterVar, &nitroSharedVars)
 				Water(WDT, SUBD, ZEIT, &g, &hermesWaterVar)
+				verifProbe("water", ZEIT, SUBD, WDT, &g, &hermesWaterVar, &nitroSharedVars)
 				if SUBD == 1 {
 					SWC := 0.0
 					SWC1 = 0
@@ -624,7 +629,9 @@ func (session *HermesSession) Run(workingDir string, args []string, logID string
 				}
 				// ************ CALCULATION OF NITROGEN DYNAMICS ************
 				// ************ BERECHNUNG DER STICKSTOFFDYNAMIK ************
+				verifProbe("nitro-pre", ZEIT, SUBD, WDT, &g, &hermesWaterVar, &nitroSharedVars)
 				finished, err := Nitro(WDT, SUBD, ZEIT, &g, &nitroSharedVars, &nitroSharedBBBVars, &herPath, &cropOut)
+				verifProbe("nitro", ZEIT, SUBD, WDT, &g, &hermesWaterVar, &nitroSharedVars)
 				if err != nil {
 					return err
 				}
@@ -641,6 +648,7 @@ func (session *HermesSession) Run(workingDir string, args []string, logID string
 			} else {
 				Denitr(&g, false)
 			}
+			verifProbe("dayend", ZEIT, 0, 0, &g, &hermesWaterVar, &nitroSharedVars)
 
 			g.AKTUELL = g.Kalender(ZEIT)
 			if g.YORGAN == 0 {
